@@ -28,7 +28,7 @@ func c06Run(c *Ctx) {
 		// a required option registered after the parser was first used is enforced as well
 		hc := c06Cfg()
 		hc.PPosReq = 0 // (positional requirements are not state-free on a re-used parser, see hist.go)
-		histCase(c, GenDecl(c.Sub("dh"), hc), []string{"late-required-group", "late-required-in-group", "late-required-in-group"}, []string{"parse"})
+		histCase(c, GenDecl(c.Sub("dh"), hc), []string{"late-required-group", "late-required-in-group", "late-required-in-group", "required-set", "required-set"}, []string{"parse"})
 		return
 	}
 	var target *Cmd
